@@ -16,6 +16,10 @@ PASS = [False, True, False, False, False]  # pass-through node <=> exactly one c
 
 def run(ctx, col, tier):
     repo = ctx.repo
+    col.rule("R-PURE", "the branch tree and the original branches it remembers are detached copies: ownership abstract interpretation of "
+             "BranchTree.from_tree -- no field of the result (node table, remembered branches) shares storage or objects with the source tree, so a "
+             "later edit of the source does not change what the branch tree remembers", floor=1)
+    col.guard(_branch_tree_fresh, ctx, col)
     col.rule("R-MEMO", "nothing computed from the tree is kept on the tree / node / path / branch object: outside construction and setters no "
              "method of these classes stores to self -- copies are deep and topology and coordinates are then edited in place (re-rooting, "
              "concatenation, node setters, transforms), so a kept decomposition or measure describes the tree before the edit; zero expected, "
@@ -67,6 +71,24 @@ def _callback_of(ctx, d, kw):
         if isinstance(v, ast.Name) and v.id in d.nested:
             return c, d.nested[v.id]
     raise AnalysisError(f"anchor-vanished: `.traverse({kw}=<local def>)` in {d.qualname}")
+
+
+def _branch_tree_fresh(ctx, col):
+    from .. import own
+    d = ctx.repo.get_def("swcgeom.core.branch_tree.BranchTree.from_tree")
+    I = own.Interp(ctx)
+    args = [own.ClassV(d.cls)] + [I.value_for_annotation(d, p, "P:" + p) for p in d.params[1:]]
+    r = I.call_def(d, args, {})
+    if not isinstance(r, own.Obj):
+        col.unresolved("R-PURE", d.qualname, d.loc(), "BranchTree.from_tree: result is fresh", f"result abstracted to {type(r).__name__}; notes: {I.notes[:3]}", stmt="btree-fresh")
+        return
+    shared = {k: sorted(x[2:] for x in own.storage_owners(v)) for k, v in r.fields.items() if own.storage_owners(v)}
+    if r.obj_owners or shared:
+        col.bad("R-PURE", d.qualname, d.loc(), "BranchTree.from_tree: result is fresh",
+                f"field(s) {shared or 'the object itself'} of the branch tree share storage / objects with the source tree: what the branch tree remembers "
+                f"(the original points of every branch) changes when the source tree is edited afterwards", stmt="btree-fresh", definite=True)
+    else:
+        col.ok("R-PURE", d.qualname, d.loc(), "BranchTree.from_tree: result is fresh", f"{I.stores_seen} store sites met; every field freshly allocated / detached", stmt="btree-fresh")
 
 
 def get_branches(ctx, col):
